@@ -9,6 +9,7 @@ import (
 	"net/http"
 	"net/url"
 	"sort"
+	"strconv"
 	"strings"
 
 	"github.com/getkin/kin-openapi/openapi3"
@@ -111,16 +112,28 @@ func ValidateRequest(ctx context.Context, input *RequestValidationInput) error {
 // appendToQueryValues adds to query parameters each value in the provided slice
 func appendToQueryValues[T any](q url.Values, parameterName string, v []T) {
 	for _, i := range v {
-		q.Add(parameterName, fmt.Sprint(i))
+		q.Add(parameterName, primitiveAsText(i))
 	}
 }
 
 func joinValues(values []any, sep string) string {
 	strValues := make([]string, 0, len(values))
 	for _, v := range values {
-		strValues = append(strValues, fmt.Sprint(v))
+		strValues = append(strValues, primitiveAsText(v))
 	}
 	return strings.Join(strValues, sep)
+}
+
+// primitiveAsText writes a default value the way a client would: numbers without an exponent
+// (fmt.Sprint turns 1000000 into 1e+06, which does not read back as an integer).
+func primitiveAsText(value any) string {
+	switch v := value.(type) {
+	case float64:
+		return strconv.FormatFloat(v, 'f', -1, 64)
+	case float32:
+		return strconv.FormatFloat(float64(v), 'f', -1, 32)
+	}
+	return fmt.Sprint(value)
 }
 
 // defaultAsText serializes a default value the way simple / non-exploded form style does:
@@ -129,20 +142,28 @@ func defaultAsText(value any) string {
 	if values, ok := value.([]any); ok {
 		return joinValues(values, ",")
 	}
-	return fmt.Sprint(value)
+	return primitiveAsText(value)
 }
 
-// populateDefaultQueryParameters populates default values inside query parameters, while ensuring types are respected
-func populateDefaultQueryParameters(q url.Values, parameterName string, value any, explode bool) {
+// populateDefaultQueryParameters populates default values inside query parameters, while ensuring types are respected.
+// A non-exploded array is joined by the delimiter of the parameter's style.
+func populateDefaultQueryParameters(q url.Values, parameterName string, value any, explode bool, style string) {
 	switch t := value.(type) {
 	case []any:
 		if explode {
 			appendToQueryValues(q, parameterName, t)
 		} else {
-			q.Add(parameterName, joinValues(t, ","))
+			sep := ","
+			switch style {
+			case openapi3.SerializationSpaceDelimited:
+				sep = " "
+			case openapi3.SerializationPipeDelimited:
+				sep = "|"
+			}
+			q.Add(parameterName, joinValues(t, sep))
 		}
 	default:
-		q.Add(parameterName, fmt.Sprint(value))
+		q.Add(parameterName, primitiveAsText(value))
 	}
 }
 
@@ -199,11 +220,11 @@ func ValidateParameter(ctx context.Context, input *RequestValidationInput, param
 				// Next check `parameter.Required && !found` will catch this.
 			case openapi3.ParameterInQuery:
 				q := req.URL.Query()
-				explode := true // the default for query parameters
+				explode, style := true, openapi3.SerializationForm // the defaults for query parameters
 				if sm, err := parameter.SerializationMethod(); err == nil {
-					explode = sm.Explode
+					explode, style = sm.Explode, sm.Style
 				}
-				populateDefaultQueryParameters(q, parameter.Name, value, explode)
+				populateDefaultQueryParameters(q, parameter.Name, value, explode, style)
 				req.URL.RawQuery = q.Encode()
 			case openapi3.ParameterInHeader:
 				req.Header.Add(parameter.Name, defaultAsText(value))
